@@ -497,3 +497,87 @@ def _():
             "def deserializeShapeOk : Bool := true\n\n"
             "/-- `get_status_summary`: `not_submitted_jobs = num_jobs - submitted_jobs` -/\n"
             "def notSubmittedCount (numJobs submitted : Nat) : Int :=\n  (((numJobs : Nat) : Int) - ((submitted : Nat) : Int))")
+
+
+# ------------------------------------------------------------------------------------------
+# the ORDER in which one lock section writes the files (torn writes: a writer killed between two writes)
+# ------------------------------------------------------------------------------------------
+_WRITE_CALLS = {
+    "cfgVer": lambda c: src(c.func) == "self._serialize_config_version" and not c.args and not c.keywords,
+    "jsVer": lambda c: src(c.func) == "self._serialize_job_status_version" and not c.args and not c.keywords,
+    "cfg": lambda c: src(c.func) == "self._serialize_file" and len(c.args) == 2 and src(c.args[1]) == "self._config_file",
+    "js": lambda c: src(c.func) == "self._serialize_file" and len(c.args) == 2 and src(c.args[1]) == "self._job_status_file",
+}
+
+
+def _write_events(fn):
+    """[(file id, enclosing statement list)] of the file-writing calls of `fn`, in statement (= execution) order.
+    Anything else in the function that could write a file is not understood."""
+    out = []
+
+    def visit(stmts):
+        for st in stmts:
+            if isinstance(st, (ast.FunctionDef, ast.ClassDef)):
+                raise SiteError(f"{fn.name}: nested definition")
+            if isinstance(st, (ast.While, ast.For, ast.Try)):
+                if any(isinstance(n, ast.Call) and any(p(n) for p in _WRITE_CALLS.values()) for n in ast.walk(st)):
+                    raise SiteError(f"{fn.name}: a file write inside a loop / try block")
+            calls = [n for n in ast.walk(st) if isinstance(n, ast.Call)] if not isinstance(st, (ast.If, ast.With)) else \
+                [n for n in ast.walk(st.test if isinstance(st, ast.If) else st.items[0].context_expr) if isinstance(n, ast.Call)]
+            for c in calls:
+                f = src(c.func)
+                hit = [k for k, p in _WRITE_CALLS.items() if p(c)]
+                if hit:
+                    if not (isinstance(st, ast.Expr) and st.value is c):
+                        raise SiteError(f"{fn.name}: file write is not a statement of its own: {src(st)}")
+                    out.append((hit[0], id(stmts)))
+                elif f in ("open", "os.rename", "os.remove", "os.replace", "shutil.move", "shutil.copy", "shutil.copyfile", "dump_data") \
+                        or f.startswith("self._serialize"):
+                    raise SiteError(f"{fn.name}: file operation not understood: {src(c)}")
+            if isinstance(st, ast.If):
+                visit(st.body)
+                visit(st.orelse)
+            elif isinstance(st, ast.With):
+                visit(st.body)
+    visit(_body(fn))
+    return out
+
+
+@site("cluster.writeOrder", "Cluster", ["C10", "C11"])
+def _():
+    """Which files `_serialize` / `_serialize_jobs` write and in WHICH ORDER (version file vs. data file): a writer killed
+    between the two writes leaves the first one done and the second one not."""
+    orders = {}
+    for name, want in (("_serialize", {"cfgVer", "cfg"}), ("_serialize_jobs", {"jsVer", "js"})):
+        ev = _write_events(find_def(CL, f"Cluster.{name}"))
+        ids = [k for k, _ in ev]
+        if sorted(ids) != sorted(want):
+            raise SiteError(f"{name} writes {ids}, expected each of {sorted(want)} once")
+        if len({blk for _, blk in ev}) != 1:
+            raise SiteError(f"{name}: the two writes are not in the same block")
+        orders[name] = ids
+    # callers that write both pairs in one lock section / call: config first, then job status
+    for caller in ("Cluster._update_job_status", "Cluster.prepare_for_resubmission"):
+        fn = find_def(CL, caller)
+        seq = [src(s.value.func) for s in walk_stmts(fn) if isinstance(s, ast.Expr) and isinstance(s.value, ast.Call)
+               and src(s.value.func) in ("self._serialize", "self._serialize_jobs")]
+        if seq != ["self._serialize", "self._serialize_jobs"]:
+            raise SiteError(f"{caller}: serialization calls {seq}")
+    # the other writers serialize exactly one pair
+    for caller, want in (("Cluster._promote_to_submitter", ["self._serialize"]), ("Cluster._demote_from_submitter", ["self._serialize"]),
+                         ("Cluster._mark_complete", ["self._serialize"]), ("Cluster._mark_canceled", ["self._serialize"]),
+                         ("Cluster._complete_hpc_job_id", ["self._serialize_jobs"])):
+        fn = find_def(CL, caller)
+        seq = [src(n.func) for n in ast.walk(fn) if isinstance(n, ast.Call) and src(n.func) in ("self._serialize", "self._serialize_jobs")]
+        if seq != want:
+            raise SiteError(f"{caller}: serialization calls {seq}")
+    lst = lambda ids: "[" + ", ".join(f"FileId.{k}" for k in ids) + "]"  # noqa: E731
+    return ("/-- the four files a lock section of `Cluster` may write -/\n"
+            "inductive FileId where\n  | cfgVer | cfg | jsVer | js\n  deriving DecidableEq, Repr\n\n"
+            "/-- `_serialize`: its file writes in statement order (config_version.txt / cluster_config.json) -/\n"
+            f"def cfgWriteOrder : List FileId := {lst(orders['_serialize'])}\n\n"
+            "/-- `_serialize_jobs`: its file writes in statement order (job_status_version.txt / job_status.json) -/\n"
+            f"def jsWriteOrder : List FileId := {lst(orders['_serialize_jobs'])}\n\n"
+            "/-- `_update_job_status` / `prepare_for_resubmission` call `_serialize` before `_serialize_jobs`; every other\n"
+            "    writer serializes exactly one of the two pairs -/\n"
+            "def configBeforeJobs : Bool := true")
